@@ -15,6 +15,8 @@ pub mod c14;
 pub mod c15;
 pub mod c16;
 pub mod c17;
+pub mod c18;
+pub mod c19;
 pub mod c20;
 pub mod codec;
 
@@ -33,6 +35,8 @@ pub fn run(ctx: &Ctx) -> Result<(), String> {
         "C15" => c15::run(ctx),
         "C16" => c16::run(ctx),
         "C17" => c17::run(ctx),
+        "C18" => c18::run(ctx),
+        "C19" => c19::run(ctx),
         "C20" => c20::run(ctx),
         "C13" => c13::run(ctx),
         "C14" => c14::run(ctx),
@@ -77,6 +81,8 @@ pub fn replay(path: &str) -> i32 {
             "C15" => c15::replay_case(c),
             "C16" => c16::replay_case(c),
             "C17" => c17::replay_case(c),
+            "C18" => c18::replay_case(c),
+            "C19" => c19::replay_case(c),
             "C20" => c20::replay_case(c),
             "C13" => c13::replay_case(c),
             "C14" => c14::replay_case(c),
